@@ -115,8 +115,15 @@ def main(tier, seed):
             continue
         f1 = lambda x: progs.run(dict(prog, ret=prog['ret'][:1]), x, ap)[0]
         fv = lambda x: progs.run_vec(prog, x, ap)
-        for _pt in range(2):
+        for _pt in range(3):
             x = progs.rand_point(rng, N); v = progs.rand_point(rng, N); w = progs.rand_point(rng, M)
+            xt = x
+            if _pt == 2:
+                # an integer-valued point handed over in an INTEGER dtype (Python int, int32, int16, uint8): the derivatives are those at that point
+                idt = rng.choice([int, numpy.int32, numpy.int16, numpy.uint8])
+                xi = numpy.array([rng.randint(0 if idt is numpy.uint8 else -3, 3) for _ in range(N)])
+                x = xi.astype(float); xt = xi.astype(idt)
+                rep.count('point dtype', numpy.dtype(idt).name)
             try:
                 J1 = numpy.asarray(fwd_jacobian(ap, f1, x)).reshape(-1)
                 H1 = numpy.asarray(fwd_hessian(ap, f1, x))
@@ -124,18 +131,18 @@ def main(tier, seed):
             except Exception as e:
                 rep.notes.append('forward-mode reference raised %r' % e); continue
             checks = [
-                ('gradient', lambda: cg1.gradient(x), J1),
-                ('hessian', lambda: cg1.hessian(x), H1),
-                ('hess_vec', lambda: cg1.hess_vec(x, v), H1 @ v),
-                ('jacobian', lambda: numpy.asarray(cgv.jacobian(x)).reshape((M, N)), Jv),
-                ('jac_vec', lambda: cgv.jac_vec(x, v), Jv @ v),
-                ('vec_jac', lambda: cgv.vec_jac(w, x), w @ Jv),
+                ('gradient', lambda: cg1.gradient(xt), J1),
+                ('hessian', lambda: cg1.hessian(xt), H1),
+                ('hess_vec', lambda: cg1.hess_vec(xt, v), H1 @ v),
+                ('jacobian', lambda: numpy.asarray(cgv.jacobian(xt)).reshape((M, N)), Jv),
+                ('jac_vec', lambda: cgv.jac_vec(xt, v), Jv @ v),
+                ('vec_jac', lambda: cgv.vec_jac(w, xt), w @ Jv),
             ]
             if True:
                 def vh():
                     Hs = [numpy.asarray(fwd_hessian(ap, (lambda xx, m=m: progs.run(dict(prog, ret=[prog['ret'][m]]), xx, ap)[0]), x)) for m in range(M)]
                     return sum(w[m] * Hs[m] for m in range(M))
-                checks.append(('vec_hess', lambda: cgv.vec_hess(w, x), None))
+                checks.append(('vec_hess', lambda: cgv.vec_hess(w, xt), None))
             for name, call, want in checks:
                 rep.count('driver', name); rep.count('recorded_with', rec_kind)
                 rep.case((name, text, repr(c05.as_data(x_rec).tolist()), repr(x.tolist()), repr(v.tolist()), repr(w.tolist())), True,
@@ -253,7 +260,39 @@ def main(tier, seed):
                           dict(kind='poly', case={k: m[k] for k in m if k != 'prog'}, prog=m['prog'], coq_term=t[:5000]))
     if bad or logs:
         rep.violation('corr:uneval', 'correspondence corr.C04 could not be evaluated for %d cases' % bad, dict(kind='correspondence', name='corr.C04', log=logs[:3]), no_input=True)
+    several_independents(rep, ap, rng, tier)
     return rep.finish()
+
+
+def several_independents(rep, ap, rng, tier):
+    """cg.gradient([..]) for graphs with two independent variables - wrapped eagerly or lazily (work recorded on the first before the second
+    exists), declared in creation order or swapped - against forward mode on the concatenated argument, at points other than the recording point"""
+    import multi
+    for it in range(16 if tier == 'quick' else 200):
+        lazy, swapped = bool(it & 1), bool(it & 2)
+        kind = 'ndarray' if it & 4 else 'UTPM'
+        mk = (lambda n: progs.rand_point(rng, n) + 0.125) if kind == 'ndarray' else (lambda n: ap.UTPM(progs.rand_utpm_data(rng, 2, 1, n)))
+        try:
+            cg, order = multi.record(ap, mk(3), mk(2), lazy, swapped)
+        except Exception as e:
+            rep.violation('multi:record:exception', 'recording a graph with two independents raises %r' % (e,), dict(kind='multi', lazy=lazy, swapped=swapped)); continue
+        for _ in range(2):
+            a, b = progs.rand_point(rng, 3) + 0.125, progs.rand_point(rng, 2) + 0.125
+            args = [b, a] if swapped else [a, b]
+            rep.count('driver', 'gradient([x1, x2])'); rep.count('several independents', '%s, declared %s' % ('lazy' if lazy else 'eager', 'swapped' if swapped else 'in creation order'))
+            rep.case(('multi-gradient', lazy, swapped, kind, repr(a.tolist()), repr(b.tolist())), True,
+                     sample=dict(driver='gradient of several independents', wrapping='lazy' if lazy else 'eager', declared='swapped' if swapped else 'creation order', recorded_with=kind))
+            try:
+                got = [numpy.asarray(g) for g in cg.gradient(args)]
+                ga, gb = multi.forward_gradients(ap, a, b)
+                want = [gb, ga] if swapped else [ga, gb]
+            except Exception as e:
+                rep.violation('multi:gradient:exception', 'cg.gradient([x1, x2]) raises %r' % (e,), dict(kind='multi', lazy=lazy, swapped=swapped, a=a.tolist(), b=b.tolist(), exc=repr(e)[:600])); break
+            if len(got) != 2 or not all(g.shape == w.shape and numpy.allclose(g, w, rtol=1e-9, atol=1e-10) for g, w in zip(got, want)):
+                rep.violation('multi:gradient:%s:%s' % ('lazy' if lazy else 'eager', 'swapped' if swapped else 'ordered'),
+                              'cg.gradient([x1, x2]) (inputs wrapped %s, declared %s) differs from the forward-mode gradient' % ('lazily' if lazy else 'eagerly', 'swapped' if swapped else 'in creation order'),
+                              dict(kind='multi', lazy=lazy, swapped=swapped, a=a.tolist(), b=b.tolist(), got=[g.tolist() for g in got], want=[w.tolist() for w in want]))
+                break
 
 
 def replay(path):
